@@ -945,11 +945,13 @@ class Weaver:
         array([12., 14., 16., 18., 20., 22., 24.])
 
         """
-        self.x, self.y = truncate(self.x, self.y, x_left=x_left, x_right=x_right, x_left_as_ratio=x_left_as_ratio,
-                                  x_right_as_ratio=x_right_as_ratio)
-        self.reference_x, self.reference_y = truncate(self.reference_x, self.reference_y, x_left=x_left,
-                                                      x_right=x_right, x_left_as_ratio=x_left_as_ratio,
-                                                      x_right_as_ratio=x_right_as_ratio)
+        x, y = truncate(self.x, self.y, x_left=x_left, x_right=x_right, x_left_as_ratio=x_left_as_ratio,
+                        x_right_as_ratio=x_right_as_ratio)
+        # the reference may reject the same bounds (it can span another range): nothing is assigned before both succeed
+        reference_x, reference_y = truncate(self.reference_x, self.reference_y, x_left=x_left, x_right=x_right,
+                                            x_left_as_ratio=x_left_as_ratio, x_right_as_ratio=x_right_as_ratio)
+        self.x, self.y = x, y
+        self.reference_x, self.reference_y = reference_x, reference_y
         return self
 
     def truncate_by_index(self, start=0, stop=None):
